@@ -30,8 +30,8 @@ SRC = [
     "src/pynguin/ga/operators/crossover.py",
 ]
 NF, NC = I.NF, I.NC
-REAL_TC_OPS = ("Mutate", "CrossOver", "XOverOp")
-REAL_SUITE_OPS = ("Add", "AddMany", "AddAlias", "AddTwice", "Delete", "Set", "Mutate", "MemberMutate", "CrossOver", "XOverOp")
+REAL_TC_OPS = ("Mutate", "MutateChange", "CrossOver", "XOverOp")
+REAL_SUITE_OPS = ("Add", "AddFactory", "AddMany", "AddAlias", "AddTwice", "MemberMutateChange", "Delete", "Set", "Mutate", "MemberMutate", "CrossOver", "XOverOp")
 
 
 # ------------------------------------------------------------------------------------------------
@@ -62,8 +62,16 @@ def pick_fn(rng, reg, n, model_mode):
 
 def gen_tc_history(rng, n_ops, model_mode):
     ops, freg, creg = [], set(), set()
-    init = rng.choice([0, 0, 1, 2, 5])
-    for _ in range(n_ops):
+    init = rng.choice([0, 0, 1, 2, 5, -1, -1, -1])      # -1: built by the real test case factory
+    if rng.random() < 0.2:
+        # change mutations on a factory-built test (literals, calls, parameterless calls that cannot be mutated),
+        # cached values queried after every mutate()
+        init, f = -1, rng.randrange(NF)
+        ops += [("AddFit", f), ("GetFitnessFor", f)]
+        freg.add(f)
+        for _ in range(rng.choice([2, 4, 6])):
+            ops += [rng.choice([("MutateChange",), ("MutateChange",), ("Mutate",)]), rng.choice([("GetFitnessFor", f), ("GetIsCovered", f), ("GetFitness",)])]
+    for _ in range(max(0, n_ops - len(ops))):
         c = rng.random()
         op = None
         if c < 0.40:
@@ -81,7 +89,7 @@ def gen_tc_history(rng, n_ops, model_mode):
                 op = ("AddCov", f)
                 creg.add(f)
         elif c < 0.72:
-            op = ("Mutate",)
+            op = ("Mutate",) if rng.random() < 0.5 else ("MutateChange",)
         elif c < 0.78:
             op = ("CrossOver", rng.randrange(1, 9), rng.randrange(0, 4), rng.randrange(0, 3))
         elif c < 0.82:
@@ -101,7 +109,7 @@ def gen_tc_history(rng, n_ops, model_mode):
             else:
                 op = ("SetCov", rng.randrange(NC + 1), rng.randrange(5))
         if op is None:
-            op = ("Mutate",) if rng.random() < 0.5 else ("GetFitness",)
+            op = rng.choice([("Mutate",), ("MutateChange",)]) if rng.random() < 0.5 else ("GetFitness",)
         ops.append(op)
     return init, ops
 
@@ -203,7 +211,7 @@ def gen_suite_history(rng, n_ops, model_mode):
         elif c < 0.58:
             op = ("Mutate",)
         elif c < 0.64:
-            op = ("MemberMutate", rng.randrange(8))
+            op = rng.choice([("MemberMutate", rng.randrange(8)), ("MemberMutateChange", rng.randrange(8)), ("AddFactory",)])
         elif c < 0.70:
             op = rng.choice([("Add", rng.randrange(0, 9)), ("Delete", rng.randrange(8)),
                              ("AddAlias", rng.randrange(8)), ("AddAlias", rng.randrange(8)), ("AddTwice", rng.randrange(0, 9)),
@@ -342,7 +350,7 @@ def oracle_steps(level, steps):
                 kind = "drop-empty" if [c for c in bc if c != 0] == [c for c in ac if c != 0] else "content"
                 return (f"discipline:suite:{name}:{kind}", f"{name} changed the suite's tests {bc} -> {ac} but the "
                         "suite's `changed` is still False", k)
-            if name in ("Mutate", "MemberMutate"):
+            if name in ("Mutate", "MemberMutate", "MemberMutateChange"):
                 # a member whose content changed must be flagged itself (it is re-executed only then)
                 for m in a["members"]:
                     if not m["changed"] and m["last"] is not None and m["last"] != m["content"]:
